@@ -18,6 +18,8 @@ var evC07 = ev.New("C07", "derived frame x expression tree (depth<=3, constants/
 	"non-string operator, unsupported constant, illegal destination); destination new/existing/equal to a source; oracle: typed row-wise model predicting either Err or the whole result frame; "+
 	"non-trivial = well-typed tree of depth>=2 or arity>=3 on a non-identity index; distinct = FNV-64 of (table, route, context, destination, expression)")
 
+var tempLikeNames = []string{"const-temp-0", "const-temp-1", "unary-temp-0", "unary-temp-1", "colcol-temp-0", "colcol-temp-1"}
+
 func breakExpr(t *rapid.T, e hx.Expr, tab hx.Table) (hx.Expr, string) {
 	anyCol := tab.Cols[0].Name
 	how := rapid.SampledFrom([]string{"unknown-fn", "unknown-col", "type-mismatch", "len1", "len4", "nonstring-op", "unsupported-const", "noargs"}).Draw(t, "break")
@@ -68,6 +70,17 @@ func breakExpr(t *rapid.T, e hx.Expr, tab hx.Table) (hx.Expr, string) {
 func TestC07(t *testing.T) {
 	rapid.Check(t, func(t *rapid.T) {
 		base := hx.GenTable(t, hx.TableOpt{MinCols: 2, MaxCols: 6, AllowDerived: true})
+		// user columns may carry the very names Eval uses for its temporaries (legal column names)
+		tempLike := false
+		if rapid.IntRange(0, 3).Draw(t, "templikenames") == 0 {
+			names := rapid.Permutation(tempLikeNames).Draw(t, "tempnames")
+			for i := range base.Cols {
+				if i < len(names) && rapid.Bool().Draw(t, "rename") {
+					base.Cols[i].Name = names[i]
+					tempLike = true
+				}
+			}
+		}
 		d := hx.GenDerived(t, base, 4)
 		in := d.Input(t)
 		custom := rapid.IntRange(0, 2).Draw(t, "customctx") == 0
@@ -77,7 +90,7 @@ func TestC07(t *testing.T) {
 		if rapid.IntRange(0, 4).Draw(t, "illformed") == 0 {
 			expr, broken = breakExpr(t, expr, in)
 		}
-		dst := rapid.SampledFrom([]string{"n1", "n2", in.Cols[0].Name, in.Cols[len(in.Cols)-1].Name}).Draw(t, "dst")
+		dst := rapid.SampledFrom([]string{"n1", "n2", in.Cols[0].Name, in.Cols[len(in.Cols)-1].Name, "n1", "unary-temp-0", "const-temp-1"}).Draw(t, "dst")
 		badDst := false
 		if rapid.IntRange(0, 19).Draw(t, "baddst") == 0 {
 			dst = rapid.SampledFrom([]string{"", "'q'", "\"q\"", "$v"}).Draw(t, "illegaldst")
@@ -120,6 +133,9 @@ func TestC07(t *testing.T) {
 		classes := []string{"result:" + col.Kind.String()}
 		if custom {
 			classes = append(classes, "custom-context")
+		}
+		if tempLike {
+			classes = append(classes, "user-columns-named-like-temporaries")
 		}
 		if in.Find(dst) >= 0 {
 			classes = append(classes, "dst-existing")
